@@ -564,3 +564,35 @@ def r4(ctx):
   zi = prog.func('scales/loadbalancer/serverset.py', 'ZooKeeperServerSetProvider.__init__')
   ok = zi.params[1:3] == ['zk_servers_or_client', 'zk_path'] and 'endpoint_name' in zi.params
   ctx.ob('C20.R4', zi, 'zk provider signature (hosts, path, ..., endpoint_name)', ok, 'signature is %s' % zi.params, 'positional hosts and path', nontrivial=False)
+  # the endpoint name given to the provider is the one it reports (the balancer picks each member's additionalEndpoint by it)
+  zc = zi.cls
+  pr = prog.lookup_method(zc, 'endpoint_name')
+  attr = None
+  if pr is not None:
+    body = [x for x in pr.node.body if not (isinstance(x, ast.Expr) and isinstance(x.value, ast.Constant))]
+    if len(body) == 1 and isinstance(body[0], ast.Return) and isinstance(body[0].value, ast.Attribute) and U(body[0].value.value) == 'self':
+      attr = body[0].value.attr
+
+  def stores_param(init, pname, depth=0):
+    # does this constructor store its parameter `pname` into self.<attr>, itself or through the next constructor in the MRO?
+    if init is None or depth > 3:
+      return False
+    for st in walk_no_nested(init.node):
+      if isinstance(st, ast.Assign) and any(U(t) == 'self.%s' % attr for t in st.targets) and U(st.value) == pname:
+        return True
+    for c in walk_no_nested(init.node):
+      if isinstance(c, ast.Call) and isinstance(c.func, ast.Attribute) and c.func.attr == '__init__' and isinstance(c.func.value, ast.Call) and U(c.func.value.func) == 'super':
+        nxt = prog.lookup_method(zc, '__init__', after=init.cls)
+        if nxt is None:
+          continue
+        ps = nxt.params[1:]
+        for i_, a_ in enumerate(c.args):
+          if U(a_) == pname and i_ < len(ps) and stores_param(nxt, ps[i_], depth + 1):
+            return True
+        for k_ in c.keywords:
+          if k_.arg in ps and U(k_.value) == pname and stores_param(nxt, k_.arg, depth + 1):
+            return True
+    return False
+  ctx.ob('C20.R4', zi, 'the zk provider reports the endpoint name it was given', attr is not None and stores_param(zi, 'endpoint_name'),
+         'endpoint_name property returns %s; the constructor does not store its endpoint_name argument there (directly or through super().__init__)' % ('self.%s' % attr if attr else 'something else than an attribute of self'),
+         'zk://hosts/path#name must select the named additional endpoint of every member')
